@@ -34,6 +34,7 @@ ASSUMPTIONS = [
 CASES = {'quick': 16000, 'thorough': 200000}
 TIME = {'quick': 70, 'thorough': 560}
 MIN_NONTRIVIAL = {'quick': 700, 'thorough': 7000}
+NO_ASSERT_SHARDS = True     # odd shards: pokerkit's asserts compiled out
 REQUIRED = ('allin_hands_with_board_to_come', 'selections_checked',
             'multi_runout_hands', 'disagreeing_preferences',
             'tournament_allin_hands', 'multi_board_hands',
